@@ -882,7 +882,7 @@ package gldap
 // a net.Conn or a tls.Conn (package-wide condition over every call site; listeners are a different type).
 //@ callonly[C08] iface:net.Conn.Close, (*crypto/tls.Conn).Close, (*net.TCPConn).Close, iface:io.Closer.Close, iface:io.ReadWriteCloser.Close by (*gldap.conn).close
 //@ func (*gldap.conn).close
-//@   requires c != nil && !isNilIface(c.netConn)
+//@   requires c != nil && !isNilIface(c.netConn) && !isNilIface(c.logger)
 //@   ensures  G_waited[&c.requestsWg] && G_cclosed[iref(c.netConn)] == old(G_cclosed[iref(c.netConn)]) + 1
 //@   ensures  G_twait[&c.requestsWg] < G_tclose[iref(c.netConn)] && G_twait[&c.requestsWg] > old(G_clock[0]) && G_tclose[iref(c.netConn)] <= G_clock[0]
 //@   ensures  c.netConn == old(c.netConn)
@@ -893,7 +893,7 @@ package gldap
 
 // teardown of one connection (deferred function of the connection goroutine)
 //@ func (*gldap.Server).Run$1$1
-//@   requires s != nil && !isNilIface(s.logger) && conn != nil && !isNilIface(conn.netConn) && G_wgcnt[&s.connWg] > 0
+//@   requires s != nil && !isNilIface(s.logger) && conn != nil && !isNilIface(conn.netConn) && !isNilIface(conn.logger) && G_wgcnt[&s.connWg] > 0
 //@   ensures  G_cclosed[iref(conn.netConn)] == old(G_cclosed[iref(conn.netConn)]) + 1 && G_waited[&conn.requestsWg]
 //@   ensures[C08,C09]  s.onCloseHandler != nil ==> G_onclose[localConnID] == old(G_onclose[localConnID]) + 1 && G_tclose[iref(conn.netConn)] < G_tonclose[localConnID]
 //@   ensures  G_twait[&conn.requestsWg] < G_tclose[iref(conn.netConn)]
